@@ -135,6 +135,7 @@ func runMeta(c *Ctx) {
 				}
 				if c.On("C09") {
 					metaC09(c, tab, argvs, readings)
+					metaC09Tail(c, tab, argvs, readings)
 				}
 				if c.On("C11") {
 					metaC11(c, tab, argvs, readings)
@@ -206,6 +207,44 @@ func metaC09(c *Ctx, t *outcomeTable, argvs [][]string, rd []ref.Reading) {
 			} else if c.WantSample("C09:insertion") && base != "R" && len(argv) >= 2 {
 				c.Sample("C09:insertion", Case{"spec": t.spec, "argv": argv, "with_marker": w, "outcome_both": base})
 			}
+		}
+	}
+}
+
+// ---- C09 part 3: what follows the first `--` is positional whatever it looks like: replacing every token of
+// the tail by a neutral placeholder changes nothing but the bound strings
+func metaC09Tail(c *Ctx, t *outcomeTable, argvs [][]string, rd []ref.Reading) {
+	for i, argv := range argvs {
+		r := rd[i]
+		if r.Ended < 0 || r.Malformed || r.Ended == len(argv)-1 {
+			continue
+		}
+		tail := argv[r.Ended+1:]
+		dashed := false
+		for _, x := range tail {
+			dashed = dashed || strings.HasPrefix(x, "-")
+		}
+		if !dashed {
+			continue
+		}
+		c.Beat()
+		neutral := append([]string{}, argv[:r.Ended+1]...)
+		for k := range tail {
+			neutral = append(neutral, fmt.Sprintf("p%d", k))
+		}
+		want := t.of(neutral)
+		for k, x := range tail {
+			want = strings.Replace(want, fmt.Sprintf("p%d", k), x, -1)
+		}
+		got := t.of(argv)
+		c.Count("C09:evaluations", 1)
+		c.Count("C09:tail_cases", 1)
+		if want != "R" {
+			c.Count("C09:nontrivial", 1)
+		}
+		if got != want {
+			c.Violation("C09", t.key(neutral, argv), metaCase(t, neutral, argv, "C09-tail"),
+				"the tokens after `--` are bound like neutral positionals at the same places: "+want, got)
 		}
 	}
 }
@@ -440,6 +479,12 @@ func replayMeta(c *Ctx, cs Case) {
 	}
 	a, b := cStrs(cs, "argv"), cStrs(cs, "argv2")
 	oa, ob := t.of(a), t.of(b)
+	if rel == "C09-tail" {
+		rel = "C09"
+		for k := len(a) - 1; k >= 0 && strings.HasPrefix(a[k], "p"); k-- {
+			oa = strings.Replace(oa, a[k], b[k], -1)
+		}
+	}
 	if oa != ob {
 		c.Violation(rel, t.key(a, b), cs, "same outcome: "+oa, ob)
 	}
